@@ -49,6 +49,12 @@ st_elected = z3.Function("st_elected", StateRefS, SeqCSet)
 st_eliminated = z3.Function("st_eliminated", StateRefS, SeqCSet)
 st_remaining = z3.Function("st_remaining", StateRefS, SeqCSet)
 st_round = z3.Function("st_round", StateRefS, z3.IntSort())
+st_skeys = z3.Function("st_scores_keys", StateRefS, CSetS)
+st_svals = z3.Function("st_scores_vals", StateRefS, RMapS)
+# recorded tiebreaks: every rule records at most one tied set per round (a dict with 0 or 1 entries)
+st_tb_has = z3.Function("st_tb_has", StateRefS, z3.BoolSort())
+st_tb_key = z3.Function("st_tb_key", StateRefS, CSetS)
+st_tb_val = z3.Function("st_tb_val", StateRefS, SeqCSet)
 SeqStr = z3.SeqSort(PyStr)
 
 ProfileS = z3.Datatype("Profile")
@@ -156,11 +162,14 @@ class Dict(Sort):
         return f"Dict[Str,{self.val}]"
 
 
-class DictSetSeq(Sort):
-    """dict[frozenset, tuple[frozenset,...]] (tiebreak records): keys Seq[CSet] + values Seq[Seq[CSet]] aligned"""
+class TBDict(Sort):
+    """dict[frozenset, tuple[frozenset,...]] with at most one entry (tiebreak record of a round)"""
 
     def __repr__(self):
-        return "DictSetSeq"
+        return "TBDict"
+
+
+TBDictS = TBDict()
 
 
 class Tup(Sort):
@@ -233,6 +242,13 @@ class VOpt(V):
 class VDict(V):
     def __init__(self, keys, vals, val: Sort = Real, order=None):
         self.keys, self.vals, self.val, self.order = keys, vals, val, order
+
+
+class VTBDict(V):
+    """dict[frozenset, tuple[frozenset,...]] with at most one entry (a round's tiebreak record)"""
+
+    def __init__(self, has, key, val):
+        self.has, self.key, self.val = has, key, val
 
 
 class VTup(V):
@@ -314,6 +330,8 @@ def fresh(sort: Sort, name: str) -> V:
         return VOpt(z3.Bool(n + "_isnone"), fresh(sort.inner, name))
     if isinstance(sort, Dict):
         return VDict(z3.Const(n + "_keys", CSetS), z3.Const(n + "_vals", RMapS), sort.val)
+    if isinstance(sort, TBDict):
+        return VTBDict(z3.Bool(n + "_has"), z3.Const(n + "_key", CSetS), z3.Const(n + "_val", SeqCSet))
     if isinstance(sort, Tup):
         return VTup([fresh(s, f"{name}_{i}") for i, s in enumerate(sort.items)])
     if isinstance(sort, Obj):
@@ -362,6 +380,8 @@ def sort_of(v: V) -> Sort:
         return Opt(sort_of(v.val))
     if isinstance(v, VDict):
         return Dict(v.val)
+    if isinstance(v, VTBDict):
+        return TBDictS
     if isinstance(v, VTup):
         return Tup(*[sort_of(i) for i in v.items])
     if isinstance(v, VNone):
